@@ -241,12 +241,23 @@ theorem nstep_newSpecialSymbol (sh : Shared D L) (sym : Sym) : NStep sh.com (new
   · exact nstep_panic _ _
   · exact nstep_fuel _
 
+theorem nstep_openSymbol (sh : Shared D L) : NStep sh.com (openSymbol env sh) := by
+  intro sh' t h
+  obtain ⟨rfl, _⟩ := openSymbol_cases env h
+  exact NoNewSyl.refl _
+
+theorem nstep_openSpecialSymbol (sh : Shared D L) (sym : Sym) : NStep sh.com (openSpecialSymbol env sh sym) := by
+  intro sh' t h
+  rcases openSpecialSymbol_cases env h with ⟨h1, _⟩ | ⟨_, rfl⟩
+  · exact nstep_newSpecialSymbol sh sym sh' t h1
+  · exact ((NoNewSyl.pushCursor _).trans (NoNewSyl.clampCursor _)).trans (NoNewSyl.popCursor _)
+
 theorem nstep_startSelecting (sh : Shared D L) : NStep sh.com (startSelecting env sh) := by
   unfold startSelecting
   repeat' split
   all_goals first
     | exact nstep_openPhrase env _
-    | exact nstep_newSpecialSymbol _ _
+    | exact nstep_openSpecialSymbol env _ _
     | nstep_leaf (NoNewSyl.refl _)
 
 theorem nstep_startSelectingOrInputSpace (sh : Shared D L) :
@@ -255,7 +266,7 @@ theorem nstep_startSelectingOrInputSpace (sh : Shared D L) :
   repeat' split
   all_goals first
     | exact nstep_openPhrase env _
-    | exact nstep_newSpecialSymbol _ _
+    | exact nstep_openSpecialSymbol env _ _
     | nstep_leaf (NoNewSyl.refl _)
 
 theorem nstep_learnTrans (sh : Shared D L) (a b : Nat) :
@@ -278,6 +289,7 @@ theorem nstep_enteringDefault (sh : Shared D L) (ev : KeyEvent) : NStep sh.com (
     | exact nstep_inputChar _ _
     | exact nstep_chineseFallback _ _
     | exact nstep_chineseFallback { sh with syl := (env.keyPress sh.syl ev).2 } ev
+    | exact nstep_openSymbol env _
     | nstep_leaf (NoNewSyl.refl _)
 
 theorem nstep_enteringBackspace (sh : Shared D L) : NStep sh.com (enteringBackspace sh) := by
@@ -291,6 +303,7 @@ theorem nstep_enteringCtrlDigit (sh : Shared D L) (c : Nat) : NStep sh.com (ente
   repeat' (first | split | (dsimp only; split))
   all_goals first
     | exact nstep_learnTrans env _ _ _
+    | exact nstep_openSymbol env _
     | nstep_leaf (NoNewSyl.refl _)
 
 theorem nstep_enteringTabInside (sh : Shared D L) : NStep sh.com (enteringTabInside env sh) := by
@@ -510,7 +523,11 @@ theorem select_nn (s : Selecting) (sh : Shared D L) (n : Nat) :
         split
         · rename_i sym y' hq
           exact OutAll.map (hfin sh sym rfl (symSel_select_chr hq))
-        · exact NoNewSyl.refl _
+        · split
+          · exact NoNewSyl.popCursor _
+          · exact NoNewSyl.refl _
+          · trivial
+          · trivial
         · trivial
         · trivial
       · -- special
